@@ -131,6 +131,11 @@ def audit_axioms(pid, modules, names, scratch):
     return res, out
 
 
+def class_imports():
+    with open(os.path.join(LEAN, 'Classes.lean')) as f:
+        return re.findall(r'^\s*import\s+(SimProc\.\S+)', f.read(), flags=re.M)
+
+
 def load_known():
     p = os.path.join(VERIF, 'known_findings.json')
     if not os.path.exists(p):
@@ -139,10 +144,57 @@ def load_known():
         return json.load(f).get('findings', [])
 
 
+def batcher_nesting_depth_ge_2(text):
+    """Shape of the known finding F14: some batcher belongs to a group one of whose paths belongs to another
+    group (a batcher at nesting depth >= 2).  Computed from the `asset` lines of a scenario text (a group takes
+    two device indices: its input and its output)."""
+    kinds, members, path_of = {}, {}, {}
+    idx = 0
+    for line in text.splitlines():
+        t = line.split()
+        if len(t) < 3 or t[0] != 'asset':
+            continue
+        if t[1] == 'dev':
+            kinds[idx] = t[2]
+            if t[2] == 'gpath':
+                for x in t[3:]:
+                    if x.startswith('group=') and x[6:].lstrip('-').isdigit():
+                        path_of[idx] = int(x[6:])
+            idx += 1
+        elif t[1] == 'group':
+            devs = []
+            for x in t[3:]:
+                if x.startswith('devs='):
+                    devs = [int(y) for y in x[5:].split(',') if y.lstrip('-').isdigit()]
+            if t[2].lstrip('-').isdigit():
+                members[int(t[2])] = devs
+            idx += 2
+    for g, devs in members.items():
+        if not any(kinds.get(d) == 'batcher' for d in devs):
+            continue
+        for p, pg in path_of.items():
+            if pg == g and any(p in dv for g2, dv in members.items() if g2 != g):
+                return True
+    return False
+
+
+def witness_kind(w):
+    """The rule a monitor witness comes from: its text without the frame prefix and without numbers, so that shrinking
+    keeps a scenario only while the SAME rule still rejects it."""
+    body = w.split(':', 1)[1] if w.startswith('frame ') and ':' in w else w
+    return re.sub(r'-?\d+(\.\d+)?', '#', body).strip()[:48]
+
+
+SHAPES = {'batcher_nesting_depth_ge_2': batcher_nesting_depth_ge_2}
+
+
 def match_known(pid, witness_text, known):
+    """A witness is a listed finding only if its text matches the entry's signature AND, when the entry names a
+    `shape`, the (shrunk) scenario has that structural shape -- so that a different violation of the same property in
+    a scenario that merely contains similar devices is still reported."""
     for k in known:
         if k.get('property') == pid and k.get('status') == 'known':
-            if re.search(k['signature'], witness_text):
+            if re.search(k['signature'], witness_text) and SHAPES.get(k.get('shape'), lambda _: True)(witness_text):
                 return k
     return None
 
@@ -200,7 +252,7 @@ def shrink(pid, cfg, lines, pred, budget=150):
 CLASS_FLAGS = {
     'C01': ['C01W'], 'C02': ['C02', 'C02W', 'C02W_B'], 'C03': ['C03W_S1', 'C03W_S4', 'C03W_S5', 'C03W_S4R', 'C03W_S5R'],
     'C04': [], 'C05': ['C05W'], 'C06': ['C06W'], 'C07': ['C01W'], 'C08': ['C08W', 'C08S'], 'C09': ['C11W', 'C10W'],
-    'C10': ['C10W', 'C10W_Q', 'C11W'], 'C11': ['C11W'], 'C12': ['C12W'], 'C13': ['C06W'], 'C14': ['C14W'],
+    'C10': ['C10W', 'C10W_Q', 'C11W'], 'C11': ['C11W'], 'C12': ['C12W'], 'C13': ['C06W', 'C12W'], 'C14': ['C14W'],
     'C15': ['C15W', 'C15W_L', 'C15D'], 'C16': ['C16W', 'C16D'], 'C17': ['C17W', 'C17W_O'], 'C18': ['C18W'], 'C19': ['C19W'],
     'C20': ['C20W'],
 }
@@ -306,10 +358,17 @@ def main():
         # 1. regenerate the facts from /repo's current sources
         facts.write()
         # 2. build the property's proof modules and the model driver
-        rc, out, bt = lake_build(['spdriver', 'spclass'])
+        rc, out, bt = lake_build(['spdriver'])
         if rc is None or rc != 0:
             log('infrastructure: model driver does not build\n' + str(out)[-3000:])
             return 2
+        # the class reporter imports the closed-world theorem files of ALL properties: on a tree where another
+        # property's obligation is broken it does not build; that is not this property's failure
+        rcc, outc, btc = lake_build(['spclass'])
+        spclass_ok = rcc == 0
+        bt += btc
+        if not spclass_ok:
+            log('note: spclass (class membership reporter) does not build on this tree; membership is not evaluated')
         modules = cfg['modules']
         rc, out, bt2 = lake_build(modules)
         if rc is None:
@@ -327,14 +386,16 @@ def main():
         names = [n for n in names if cfg.get('theorem_filter', lambda n: True)(n)]
         axioms = {}
         audit_fail = []
+        class_names = theorem_names(os.path.join(LEAN, 'Classes.lean')) if (spclass_ok and CLASS_FLAGS.get(pid)) else []
         if not proof_broken:
-            axioms, aout = audit_axioms(pid, modules, names, scratch)
+            axioms, aout = audit_axioms(pid, modules + (['Classes'] if class_names else []), names + class_names, scratch)
             for n, ax in axioms.items():
                 if ax is None:
                     audit_fail.append((n, 'not found'))
                 elif not set(ax) <= ALLOWED_AXIOMS:
                     audit_fail.append((n, ax))
-            hits = forbidden_tokens(lean_files_of(modules))
+            hits = forbidden_tokens(lean_files_of(modules) + ([os.path.join(LEAN, 'Classes.lean')] + lean_files_of(class_imports())
+                                                              if class_names else []))
             if hits:
                 audit_fail.append(('forbidden tokens', hits))
             if audit_fail:
@@ -404,7 +465,7 @@ def main():
 
             def pred(c):
                 ww, _, _, _ = eval_scenario(pid, cfg, c, use_model=False)
-                return any(x.split(':')[-1].strip()[:30] == w[0].split(':')[-1].strip()[:30] for x in ww) or bool(ww)
+                return any(witness_kind(x) == witness_kind(w[0]) for x in ww)
             small = shrink(pid, cfg, s, pred)
             ww, d, _, _ = eval_scenario(pid, cfg, small, use_model=not any(l[0] == 'tick' for l in small))
             text = json.dumps(ww) + '\n' + scen.to_text(small)
@@ -456,7 +517,7 @@ def main():
                     small = shrink(pid, cfg, s, predd)
                     _, d, _, _ = eval_scenario(pid, cfg, small)
                     text = json.dumps(d)
-                    k = match_known(pid, text + scen.to_text(small), known)
+                    k = match_known(pid, text + '\n' + scen.to_text(small), known)
                     if k:
                         known_lines.append(f'KNOWN-FINDING: property={pid} {k["what"]}')
                     else:
@@ -510,7 +571,8 @@ def main():
                     log('infrastructure: leanchecker failed', (p.stdout + p.stderr)[-1000:])
                     return 2
             except subprocess.TimeoutExpired:
-                extra_cov['leanchecker'] = {'rc': 'timeout'}
+                log('infrastructure: leanchecker timed out')
+                return 2
 
         # 8. evidence
         for fam, s in all_scen:
@@ -539,7 +601,11 @@ def main():
             'exhaustive_part': exhaustive_info,
             'build_s': round(bt + bt2, 1),
         }
-        cov['proved_class_membership'] = class_membership(pid, texts[:n_model])
+        cov['proved_class_membership'] = (class_membership(pid, texts[:n_model]) if spclass_ok else
+                                          {'flags': CLASS_FLAGS.get(pid, []), 'note': 'spclass does not build on this tree'})
+        if class_names:
+            cov['proved_class_membership']['class_report_theorems_audited'] = {
+                'file': 'lean/Classes.lean', 'count': sum(1 for n in class_names if axioms.get(n) is not None)}
         cov.update(extra_cov)
         if extra_stats is not None:
             cov['extra_checks'] = extra_stats
